@@ -770,6 +770,10 @@ def simplify(e):
             if const(a) and const(b) and isinstance(x.ops[0], (ast.Eq, ast.NotEq)):
                 r = a.value == b.value
                 return ast.Constant(value=r if isinstance(x.ops[0], ast.Eq) else not r)
+            if const(a) and const(b) and isinstance(x.ops[0], (ast.Is, ast.IsNot)) and \
+                    any(z.value is None or z.value is True or z.value is False for z in (a, b)):
+                r = a.value is b.value        # identity with a singleton
+                return ast.Constant(value=r if isinstance(x.ops[0], ast.Is) else not r)
             if const(a) and isinstance(b, (ast.Tuple, ast.List, ast.Set)) and all(const(z) for z in b.elts) \
                     and isinstance(x.ops[0], (ast.In, ast.NotIn)):
                 r = a.value in [z.value for z in b.elts]
@@ -847,3 +851,150 @@ def peval(view, env, max_paths=400, effects=False):
         for b, lab in succ:
             stack.append((b, loc, handler, visits, eff))
     return out
+
+
+# ----------------------------------------------------------------------------------------------- path conditions as formulas
+def _atom(e):
+    """canonical propositional form of a test expression: ("atom", text) | ("not", f) | ("and", [f..]) | ("or", [f..]).
+    Orderings are expressed with `<` only (a > b == b < a; a <= b == not (b < a)); !=, not in, is not are negated atoms."""
+    if isinstance(e, ast.UnaryOp) and isinstance(e.op, ast.Not):
+        return ("not", _atom(e.operand))
+    if isinstance(e, ast.BoolOp):
+        return ("and" if isinstance(e.op, ast.And) else "or", [_atom(v) for v in e.values])
+    if isinstance(e, ast.Compare) and len(e.ops) == 1:
+        a, b, op = e.left, e.comparators[0], e.ops[0]
+        mk = lambda l, o, r: ("atom", src(ast.Compare(left=l, ops=[o], comparators=[r])))
+        if isinstance(op, (ast.In, ast.NotIn)) and isinstance(b, (ast.Tuple, ast.List, ast.Set)) and 1 <= len(b.elts) <= 4:
+            alts = [mk(a, ast.Eq(), z) for z in b.elts]         # x in (A, B)  ==  x == A or x == B
+            f = alts[0] if len(alts) == 1 else ("or", alts)
+            return f if isinstance(op, ast.In) else ("not", f)
+        if isinstance(op, ast.Lt):
+            return mk(a, ast.Lt(), b)
+        if isinstance(op, ast.Gt):
+            return mk(b, ast.Lt(), a)
+        if isinstance(op, ast.LtE):
+            return ("not", mk(b, ast.Lt(), a))
+        if isinstance(op, ast.GtE):
+            return ("not", mk(a, ast.Lt(), b))
+        if isinstance(op, ast.NotEq):
+            return ("not", mk(a, ast.Eq(), b))
+        if isinstance(op, ast.NotIn):
+            return ("not", mk(a, ast.In(), b))
+        if isinstance(op, ast.IsNot):
+            return ("not", mk(a, ast.Is(), b))
+    if isinstance(e, ast.Compare) and len(e.ops) > 1:      # chained: a < b < c
+        parts, left = [], e.left
+        for op, right in zip(e.ops, e.comparators):
+            parts.append(_atom(ast.Compare(left=left, ops=[op], comparators=[right])))
+            left = right
+        return ("and", parts)
+    if isinstance(e, ast.Constant):
+        return ("const", bool(e.value))
+    return ("atom", src(e))
+
+
+def _atoms(f, acc):
+    if f[0] == "atom":
+        acc.add(f[1])
+    elif f[0] == "not":
+        _atoms(f[1], acc)
+    elif f[0] in ("and", "or"):
+        for g in f[1]:
+            _atoms(g, acc)
+    return acc
+
+
+def _eval(f, env):
+    if f[0] == "atom":
+        return env[f[1]]
+    if f[0] == "const":
+        return f[1]
+    if f[0] == "not":
+        return not _eval(f[1], env)
+    if f[0] == "and":
+        return all(_eval(g, env) for g in f[1])
+    return any(_eval(g, env) for g in f[1])
+
+
+def path_condition(view, node, start=None, by_value=True, max_paths=2000, loops=False):
+    """the condition under which `node` is executed, as a propositional formula over the tests on the way: OR over the
+    (loop-free) CFG paths from `start` (default: the innermost enclosing loop header's iteration edge, else the function entry)
+    of the AND of the tests taken on that path.  Independent of nesting, merging, splitting, ordering of guards.
+    loops=True also counts the tests of `while` headers passed on the way (first entry into the loop)."""
+    cfg = view.cfg
+    if start is None:
+        hdrs = [h for h in cfg.nodes if h.kind == "for" or (h.kind == "test" and isinstance(h.ast, ast.While))]
+        enclosing = [h for h in hdrs if id(node.ast) in {id(x) for x in ast.walk(h.ast)} and h.id != node.id]
+        if enclosing:
+            h = max(enclosing, key=lambda x: getattr(x.ast, "lineno", 0))
+            start = [b for b, lab in cfg.succ[h.id] if lab in ("iter", "T")]
+        else:
+            start = [cfg.entry.id]
+    paths = []
+    for s0 in start:
+        if s0 == node.id:
+            paths.append([s0])
+        else:
+            paths += cfg.paths(s0, [node.id], max_visits=1, limit=max_paths)
+    disj = []
+    for p in paths:
+        conj = []
+        for a, b in zip(p, p[1:]):
+            n = cfg.nodes[a]
+            if n.kind == "test" and (loops or not isinstance(n.ast, ast.While)):
+                lab = [l for x, l in cfg.succ[a] if x == b]
+                if not lab or lab[0] not in ("T", "F"):
+                    continue
+                t = n.ast.test
+                if by_value:
+                    try:
+                        t = view.sym(t, n)
+                    except Exception:
+                        pass
+                f = _atom(t)
+                conj.append(f if lab[0] == "T" else ("not", f))
+        disj.append(("and", conj))
+    return ("or", disj)
+
+
+def formula_equiv(f, expected_text, ignore=()):
+    """is formula f equivalent to the python boolean expression expected_text (atoms compared by canonical text)?
+    Atoms listed in `ignore` (e.g. logging verbosity tests) are quantified away: f must agree for both values."""
+    g = _atom(ast.parse(expected_text, mode="eval").body)
+    atoms = sorted(_atoms(f, set()) | _atoms(g, set()))
+    if len(atoms) > 14:
+        return False
+    import itertools
+    for vals in itertools.product((False, True), repeat=len(atoms)):
+        env = dict(zip(atoms, vals))
+        if _eval(f, env) != _eval(g, env):
+            return False
+    return True
+
+
+def formula_implies(f, expected_text):
+    """does formula f imply the python boolean expression expected_text (propositionally, atoms by canonical text)?"""
+    g = _atom(ast.parse(expected_text, mode="eval").body)
+    atoms = sorted(_atoms(f, set()) | _atoms(g, set()))
+    if len(atoms) > 16:
+        return False
+    import itertools
+    for vals in itertools.product((False, True), repeat=len(atoms)):
+        env = dict(zip(atoms, vals))
+        if _eval(f, env) and not _eval(g, env):
+            return False
+    return True
+
+
+def formula_implied_by(f, premise_text):
+    """does the python boolean expression premise_text imply formula f?"""
+    g = _atom(ast.parse(premise_text, mode="eval").body)
+    atoms = sorted(_atoms(f, set()) | _atoms(g, set()))
+    if len(atoms) > 16:
+        return False
+    import itertools
+    for vals in itertools.product((False, True), repeat=len(atoms)):
+        env = dict(zip(atoms, vals))
+        if _eval(g, env) and not _eval(f, env):
+            return False
+    return True
